@@ -152,8 +152,20 @@ def run_check(pid, tier, seed, t0):
     # ------------------------------------------------------------ custom obligations
     # (static footprint / frame obligations over the real AST: props.<id>.custom)
     custom_fail = []
-    if hasattr(prop, "custom"):
-        for c in prop.custom(tier, seed, REPO):
+    custom_obs = list(prop.custom(tier, seed, REPO)) if hasattr(prop, "custom") else []
+    if True:
+        # every property's contracts treat the lru_cache'd calendar helpers as the
+        # functions they wrap: the memoisation obligations of module data belong to
+        # every cone (C15 proves all of them, for all modules)
+        from pyvc.source import SourceDB as _SDB
+        from pyvc.footprint import Analysis as _An
+        _a = _An(_SDB(REPO))
+        have = {c["name"] for c in custom_obs}
+        custom_obs += [{"name": n, "ok": ok, "detail": d, "backend": "ast-footprint",
+                        "reproduced": False}
+                       for (n, ok, d) in _a.persistent_store_obligations() + _a.memo_obligations()
+                       if n.startswith("memo[data:") and n not in have]
+        for c in custom_obs:
             obligations += 1
             if c["ok"]:
                 discharged += 1
